@@ -33,15 +33,26 @@ pub struct RefStats {
 }
 
 pub fn expected_trace(f: &Flat, path: &[String]) -> Expected {
+    expected_trace_mode(f, path, false)
+}
+
+pub fn expected_trace_mode(f: &Flat, path: &[String], prequeue: bool) -> Expected {
     let mut m = Machine::new(f);
-    m.start();
     let mut ended_early = false;
-    for e in path {
-        if !m.running || m.diverged {
+    if prequeue {
+        m.start_prequeued(path);
+        if !m.running {
             ended_early = true;
-            break;
         }
-        m.feed(e);
+    } else {
+        m.start();
+        for e in path {
+            if !m.running || m.diverged {
+                ended_early = true;
+                break;
+            }
+            m.feed(e);
+        }
     }
     let mut final_config = m.config_names();
     if m.running && !m.diverged {
@@ -141,7 +152,11 @@ pub struct CaseOutcome {
 }
 
 pub fn run_real(xml: &str, path: &[String]) -> CaseOutcome {
-    let res = session::run_doc(xml, path);
+    run_real_mode(xml, path, false)
+}
+
+pub fn run_real_mode(xml: &str, path: &[String], prequeue: bool) -> CaseOutcome {
+    let res = session::run_doc_mode(xml, path, prequeue);
     let observed = session::canonical_lines(&res);
     CaseOutcome { res, observed }
 }
@@ -189,18 +204,55 @@ pub struct Workload<'a> {
     pub rep: &'a mut Report,
     pub focus: Focus,
     pub lstats: LegalityStats,
+    /// queue all events before the first macrostep (content data models only)
+    pub prequeue: bool,
+    pub qstats: crate::monitors::QueueStats,
+    pub hstats: crate::monitors::HistoryStats,
+    pub dstats: crate::monitors::DoneStats,
+    /// result of the last run: the focus' own non-triviality verdict
+    pub last_nontrivial: bool,
+}
+
+impl<'a> Workload<'a> {
+    pub fn new(args: &'a Args, rep: &'a mut Report, focus: Focus) -> Workload<'a> {
+        Workload {
+            args,
+            rep,
+            focus,
+            lstats: Default::default(),
+            prequeue: false,
+            qstats: Default::default(),
+            hstats: Default::default(),
+            dstats: Default::default(),
+            last_nontrivial: false,
+        }
+    }
 }
 
 impl<'a> Workload<'a> {
     /// runs (doc, path) in both interpreters and applies the monitors; returns false if the run was discarded
     pub fn run_one(&mut self, doc: &Doc, f: &Flat, path: &[String], twice: bool) -> bool {
-        let exp = expected_trace(f, path);
+        self.last_nontrivial = false;
+        let prequeue = self.prequeue && doc.dm != Dm::Null;
+        let exp = expected_trace_mode(f, path, prequeue);
         if exp.diverged {
             self.rep.count("discarded_nonterminating_documents", 1);
             return false;
         }
+        let gated;
+        let doc = if prequeue {
+            let mut d = doc.clone();
+            d.script.insert(0, Stmt::Gate(1));
+            gated = d;
+            &gated
+        } else {
+            doc
+        };
         let xml = doc.to_xml();
-        let out = run_real(&xml, path);
+        let out = run_real_mode(&xml, path, prequeue);
+        if prequeue {
+            self.rep.count("runs_with_all_events_prequeued", 1);
+        }
         self.rep.evaluations += 1;
         self.rep.count(&format!("runs_{}", doc.dm.name()), 1);
         match &out.res.status {
@@ -229,7 +281,21 @@ impl<'a> Workload<'a> {
                         witness(doc, &xml, path, &exp.lines, &out.observed, json!({"timeout_at": whr, "log_tail": tail(&out.res, 12)})),
                     );
                 } else {
-                    self.rep.inconclusive(&format!("watchdog at {} ({} log entries)", whr, out.res.log.len()));
+                    // blocked in the external queue although events are outstanding = an event was lost
+                    let last_method = out.res.log.iter().rev().find_map(|e| match &e.ev {
+                        crate::rec::Ev::MIn(m) => Some(m.clone()),
+                        _ => None,
+                    });
+                    let x = out.res.log.iter().filter(|e| matches!(&e.ev, crate::rec::Ev::XRecv(_))).count();
+                    if last_method.as_deref() == Some("externalQueue.dequeue") && whr != "gate" {
+                        self.rep.violation(
+                            "external-event-never-consumed",
+                            &format!("the session waits in its external queue after {} events although more were sent (watchdog at {})", x, whr),
+                            witness(doc, &xml, path, &exp.lines, &out.observed, json!({"timeout_at": whr})),
+                        );
+                    } else {
+                        self.rep.inconclusive(&format!("watchdog at {} ({} log entries)", whr, out.res.log.len()));
+                    }
                 }
                 return true;
             }
@@ -252,6 +318,21 @@ impl<'a> Workload<'a> {
                 self.rep.count("legality_alarm_outside_C01", 1);
             }
         }
+        // focus-specific model-free monitors
+        let content = doc.dm != Dm::Null;
+        let focus_result: Result<(), (String, String)> = match self.focus {
+            Focus::Rtc => crate::monitors::queue_discipline(&out.res, &mut self.qstats),
+            Focus::History => crate::monitors::history(f, &out.res, &mut self.hstats, content),
+            Focus::Done => crate::monitors::done_and_termination(f, &out.res, &mut self.dstats, content, path.len()),
+            _ => Ok(()),
+        };
+        if let Err((key, what)) = focus_result {
+            self.rep.violation(&key, &what, witness(doc, &xml, path, &exp.lines, &out.observed, json!({"monitor": format!("{:?}", self.focus)})));
+            return true;
+        }
+        if self.focus == Focus::Rtc {
+            self.last_nontrivial = std::mem::replace(&mut self.qstats.nontrivial, false);
+        }
         // reference equality
         if let Some((i, e, o)) = session::first_divergence(&exp.lines, &out.observed) {
             let key = divergence_key(&e, &o, self.focus);
@@ -272,7 +353,7 @@ impl<'a> Workload<'a> {
         }
         // determinism: the same (doc, path) again, fresh parse
         if twice {
-            let out2 = run_real(&xml, path);
+            let out2 = run_real_mode(&xml, path, prequeue);
             self.rep.count("determinism_reruns", 1);
             if matches!(out2.res.status, RunStatus::Completed) {
                 if let Some((i, a, b)) = session::first_divergence(&out.observed, &out2.observed) {
